@@ -1317,6 +1317,9 @@ class Compiler:
                 type=ast.Tuple(elts=[Builtin("Exception")], ctx=ast.Load()),
                 name="__exc",
                 body=(error_assignment +
+                      # The failure is handled: forget the positions
+                      # recorded for it on the way up.
+                      template("rcontext.pop('__error__', None)") +
                       template("del __stream[fallback:]", fallback=fallback) +
                       fallback_body
                       ),
